@@ -181,6 +181,12 @@ Proof.
       rewrite R.
       eapply Permutation_trans; [apply Permutation_app; [apply Permutation_sym, Permutation_rev | exact H3]|].
       eapply Permutation_trans; [apply Permutation_app_comm|]. apply filter_partition_perm.
+  - destruct (run_future c args f top (all_owned f)) as [l0 r0] eqn:E. inversion HR; subst; clear HR.
+    rewrite <- (filter_true (all_owned f)) in E.
+    destruct (run_future_sim c args f top (fun _ => true) _ _ _ _ _ (fun _ _ => eq_refl) E HB) as (H1 & H2 & H3).
+    rewrite filter_true in H3. split; [assumption|]. split.
+    + change (ECreated :: l0) with ([ECreated] ++ l0). rewrite own_effects_app, H2. reflexivity.
+    + change (ECreated :: l0) with ([ECreated] ++ l0). rewrite xdrops_app. exact H3.
 Qed.
 
 (** ** Clause 1: erasing the tracing entries gives the plain function *)
@@ -252,6 +258,9 @@ Proof.
     specialize (S fr).
     destruct (texec c args f XBody fr) as [[[l lv'] r] t]. simpl in *.
     apply Forall_app; split; [apply xdrops_not_tracing | constructor; auto].
+  - unfold run_future.
+    specialize (S (all_owned f)).
+    destruct (texec c args f XBody (all_owned f)) as [[[l lv'] r] t]. simpl in *. constructor; auto.
 Qed.
 
 (** counts of anything that is not a tracing entry are preserved (uses, moves, clones, drops of either kind) *)
